@@ -7,11 +7,14 @@
 #include <rapidcheck.h>
 #include "vf.h"
 #include <fstream>
+#include <ctime>
 
 static size_t g_tape_max = 1024;
 static long g_shrink_budget = 4000;
 static bool g_failed_once = false;
 static long g_after_fail = 0;
+static long g_shrink_secs = 240;   // wall-clock cap on shrinking only (never on the verdict): heavy cases must not delay the report
+static time_t g_fail_time = 0;
 static std::string g_last_msg;
 
 static std::vector<uint16_t> read_tape(const char* path) {
@@ -36,6 +39,7 @@ static void save_cur(const std::vector<uint16_t>& t) {
 int main(int argc, char** argv) {
     if (const char* e = getenv("VF_TAPE_MAX")) g_tape_max = (size_t)atol(e);
     if (const char* e = getenv("VF_SHRINK_BUDGET")) g_shrink_budget = atol(e);
+    if (const char* e = getenv("VF_SHRINK_SECONDS")) g_shrink_secs = atol(e);
     if (argc >= 3 && !strcmp(argv[1], "--replay")) {
         int worst = 0;
         for (int i = 2; i < argc; i++) {
@@ -56,12 +60,12 @@ int main(int argc, char** argv) {
             return rc::gen::resize(cap, rc::gen::container<std::vector<uint16_t>>(
                                             rc::gen::resize(100, rc::gen::arbitrary<uint16_t>())));
         });
-        if (g_failed_once && ++g_after_fail > g_shrink_budget) return;  // stop shrinking, keep best
+        if (g_failed_once && (++g_after_fail > g_shrink_budget || time(nullptr) - g_fail_time > g_shrink_secs)) return;  // stop shrinking, keep best
         std::string msg;
         save_cur(tape);
         int rc = vf::run_case(tape.data(), tape.size(), &msg, false);
         if ((vf::stats().cases & 63) == 0) vf::dump_stats();
-        if (rc == 1) { g_failed_once = true; g_last_msg = msg; RC_FAIL(msg); }
+        if (rc == 1) { if (!g_failed_once) g_fail_time = time(nullptr); g_failed_once = true; g_last_msg = msg; RC_FAIL(msg); }
     });
     vf::dump_stats();
     if (!ok) printf("VF-FAIL %s\n", g_last_msg.c_str());
